@@ -182,6 +182,14 @@ Proof.
       * right. split; [right; split; [exact H1|]|]; intros E; apply H2; [left; congruence|right; exact E].
 Qed.
 
+(* the range statement may produce a service again after its entry was re-inserted
+   (Go: an entry created during iteration may or may not be produced): nothing happens *)
+Lemma rehome_step_revisit ps m e e' : rehome ps e = Some e' -> rehome_step ps m e' = m.
+Proof.
+  unfold rehome, rehome_step. destruct (pool_for (by_name ps) (a_ips (snd e))) as [p|] eqn:E; [|discriminate].
+  intros [= <-]. cbn [fst snd a_ips a_pool]. rewrite E, N.eqb_refl. reflexivity.
+Qed.
+
 (* two abstract states with the same pools and the same recorded allocations *)
 Definition st_equiv (a b : st) : Prop :=
   s_pools a = s_pools b /\ forall e, In e (allocated a) <-> In e (allocated b).
